@@ -166,11 +166,11 @@ CLAIMS.update({
 
 CLAIMS.update({
     "C10": dict(
-        technique="affine abstract interpretation of the id<->variable maps extracted from MIR (interval x congruence disjointness, symbolic composition), dominance of selector allocation",
+        technique="affine abstract interpretation of the id<->variable maps extracted from MIR (interval x congruence disjointness, symbolic composition), dominance of selector allocation, loop-exit edges of clause-emitting loops (CFG)",
         text="NARROW CLAIM (variable layout and decoder agreement only). Decides for all n >= 1 and all ids that argument, attacker-disjunction and "
         "range variables of the four encoders are given by injective affine maps with pairwise disjoint images, that decoding an argument variable "
         "gives back its id and never decodes an auxiliary/range/lazily-numbered variable as an argument, that range variables are "
-        "first_range_var(n)+id, that reserve() covers the layout, and that selectors are allocated after encoding. NOT decided: that the models of "
+        "first_range_var(n)+id, that reserve() covers the layout, that selectors are allocated after encoding, and that a clause-emitting iterator loop of an encoder is left only when its iterator is exhausted. NOT decided: that the models of "
         "the generated CNF are exactly the conflict-free / admissible / complete / stable sets (main statement; needs all-models reasoning).",
         ref="4/C10",
     ),
